@@ -1,6 +1,7 @@
 """C06 — inheritance / include / import composition: the error clauses.
 
-Block resolution over chain shapes is value-level and not decided.  Decided (multi_template configurations):
+Which output a given chain shape produces is value-level and not decided; the layer discipline it rests on (I5) is.
+Decided (multi_template configurations):
  I1 double extends: in the LoadBlocks handler `parent_instructions.is_some()` guards the `load_blocks` call; its true
     side returns Err; the loaded instructions are stored into that same variable; output is discarded from then on
     (begin_capture(Discard)) and un-discarded when the parent's instructions are swapped in (end_capture after take()).
@@ -11,9 +12,13 @@ Block resolution over chain shapes is value-level and not decided.  Decided (mul
  I4 missing includes: in perform_include an Err of get_template is discarded only under `kind() == TemplateNotFound`,
     every other Err is returned; a TemplateNotFound error is produced when something was tried and ignore_missing
     is false.
+ I5 block layers: a block's definitions form a vector ordered most-derived first that only grows at its end, one
+    layer per block of each loaded parent, appended to the existing entry; `depth` starts at 0, moves +1 only under
+    `depth + 1 < len` (super) and -1 after it, or is restored from a checkpoint; the layer rendered by a block call
+    and by super() (after a successful push) is `instructions[depth]`; super() with no further layer returns Err.
 """
 from .. import cfg, flow, errflow, query
-from ..facts import op_place
+from ..facts import op_place, const_int
 
 EI = "minijinja::vm::Executor::eval_impl"
 LB = "minijinja::vm::Executor::load_blocks"
@@ -43,12 +48,199 @@ def err_returned_from(fn, start, removed=()):
     return cfg.paths_must_pass(fn, start, marks, rets, removed_edges=removed)
 
 
+BS = "minijinja::vm::state::BlockStack"
+PS = "minijinja::vm::Executor::perform_super"
+CB = "minijinja::vm::Executor::call_block"
+APPEND = BS + "::append_instructions"
+BS_INSTR = BS + "::instructions"
+WES = "minijinja::vm::state::State::with_execution_state"
+
+
+def _field_of(place, adt, field):
+    pr = place.get("p", []) if place else []
+    return any(isinstance(e, dict) and e.get("of") == adt and e.get("n") == field for e in pr)
+
+
+def check_block_layers(ctx, prog, tag):
+    """I5: the layer discipline block resolution rests on.  A block's definitions form a vector ordered from the most
+    derived template to the root; `depth` selects the layer being rendered.  Decided structurally:
+      - the vector only grows at its end, and only while a parent template is loaded (load_blocks), one layer per
+        block of the parent, appended to the existing entry (never replacing it);
+      - `depth` starts at 0, moves by +1 only under `depth + 1 < len` (super()) and by -1 after it; the only other
+        writes restore a checkpoint of the same fields;
+      - the layer rendered is `instructions[depth]`, by super() after a successful push and by a block call;
+      - super() with no further layer is an error."""
+    n = 0
+    # -- mutable uses of the layer vector
+    for f in prog.fns.values():
+        if f.crate != "minijinja":
+            continue
+        for c in f.calls():
+            if not c.args:
+                continue
+            a0 = op_place(c.args[0])
+            if a0 is None or "p" in a0:
+                continue
+            for d in flow.whole_defs(f, a0["l"]):
+                if d.kind == "stmt" and d.rv["k"] == "ref" and d.rv.get("mut") and _field_of(d.rv["place"], BS, "instructions"):
+                    n += 1
+                    last = c.name.split("::")[-1]
+                    ok = last == "push"
+                    why = "layers may only be appended"
+                    if last == "truncate":
+                        # checkpoint restore: the length comes from a BlockCheckpoint recorded with len()
+                        src = flow.origins(f, c.args[1])
+                        ok = bool(src) and all("instruction_count" in o.proj for o in src)
+                        why = "truncate to something other than a recorded checkpoint length"
+                    ctx.ob("C06.I5.layer-vector-only-grows-at-the-end", tag + "%s|%s" % (f.path, last), ok,
+                           "%s on BlockStack.instructions: %s; reordering or dropping layers changes which "
+                           "definition a block or super() renders" % (c.name, why), f.where(c.bb))
+    ctx.floor("C06.I5 mutable uses of BlockStack.instructions" + tag, n, 2)
+    # -- writers of depth
+    nd = 0
+    for f, bb, w, p in query.field_accessors(prog, BS, "depth"):
+        if not w:
+            continue
+        for st in f.stmts(bb):
+            if st["k"] != "assign" or not _field_of(st["place"], BS, "depth") or st["rv"]["k"] != "use":
+                continue
+            nd += 1
+            src = flow.origins(f, st["rv"]["op"])
+            kinds = set()
+            for o in src:
+                if o.kind == "bin" and o.rv["op"] in ("Add", "AddWithOverflow") and const_int(o.rv["b"]) == 1 and \
+                        _field_of(op_place(o.rv["a"]) or {}, BS, "depth"):
+                    kinds.add("+1")
+                elif o.kind == "call" and o.call.name.endswith("::checked_sub") and const_int(o.call.args[1]) == 1:
+                    kinds.add("-1")
+                elif o.kind == "call" and o.call.name.endswith("Option::unwrap"):
+                    inner = flow.origins(f, o.call.args[0])
+                    if all(i.kind == "call" and i.call.name.endswith("::checked_sub") and const_int(i.call.args[1]) == 1 for i in inner):
+                        kinds.add("-1")
+                    else:
+                        kinds.add("?")
+                elif "depth" in o.proj:
+                    kinds.add("restore")
+                else:
+                    kinds.add("?")
+            ok = bool(kinds) and "?" not in kinds
+            if "+1" in kinds:
+                # guarded by depth + 1 < len(instructions)
+                g_ok = False
+                for (sb, taken) in flow.guards(f, bb):
+                    cd = flow.cond_of(f, sb)
+                    if cd.kind == "bin" and cd.rv["op"] == "Lt" and not cd.neg:
+                        la = flow.origins(f, cd.rv["a"])
+                        lb_ = flow.origins(f, cd.rv["b"])
+                        if any(o.kind == "bin" and const_int(o.rv["b"]) == 1 for o in la) and any(
+                                o.kind == "call" and o.call.name.endswith("::len") for o in lb_):
+                            g_ok = True
+                ok = ok and g_ok
+            ctx.ob("C06.I5.depth-moves-one-layer-at-a-time", tag + "%s|%s" % (f.path, "/".join(sorted(kinds))), ok,
+                   "BlockStack.depth is written with %s; allowed: +1 under `depth + 1 < len`, -1, or a checkpoint "
+                   "restore" % sorted(kinds), f.where(bb))
+    ctx.floor("C06.I5 writes of BlockStack.depth" + tag, nd, 2)
+    for f, bb, i, rv in query.aggregates_of(prog, BS):
+        if (f.trait or "").endswith("Default"):
+            continue
+        names = rv.get("fields", [])
+        if "depth" in names:
+            v = const_int(rv["ops"][names.index("depth")])
+            ctx.ob("C06.I5.new-stack-starts-at-most-derived", tag + f.path, v == 0,
+                   "a new BlockStack starts at depth %r, not 0 (the most derived definition)" % v, f.where(bb))
+    # -- the layer rendered is instructions[depth]
+    gi = prog.fn(BS_INSTR)
+    idx_ok = False
+    for c in gi.calls():
+        if c.name.split("::")[-1] in ("get", "index", "get_unchecked") and len(c.args) > 1:
+            if any("depth" in o.proj for o in flow.origins(gi, c.args[1])):
+                idx_ok = True
+    ctx.ob("C06.I5.rendered-layer-is-indexed-by-depth", tag + BS_INSTR, idx_ok,
+           "BlockStack::instructions() does not index the layer vector with `depth`", gi.loc)
+    # -- layers are registered only while loading a parent, onto the existing entry, one per block
+    lb = prog.fn(LB)
+    for c in prog.calls_of(APPEND):
+        ctx.ob("C06.I5.layers-appended-only-by-load_blocks", tag + c.fn.path, c.fn.path == LB,
+               "append_instructions outside load_blocks", c.fn.where(c.bb))
+    apps = lb.calls_to(APPEND)
+    ctx.ob("C06.I5.parent-layers-are-appended", tag + "load_blocks", bool(apps),
+           "load_blocks no longer appends the parent's blocks to the existing stacks", lb.loc)
+    for c in apps:
+        src = flow.origins(lb, c.args[0])
+        ok = bool(src) and all(o.kind == "call" and o.call.name.split("::")[-1] in ("or_default", "or_insert_with", "or_insert")
+                               for o in src)
+        via_entry = False
+        for o in src:
+            if o.kind == "call":
+                for o2 in flow.origins(lb, o.call.args[0]):
+                    if o2.kind == "call" and o2.call.name.endswith("::entry") and any(
+                            "blocks" in o3.proj for o3 in flow.origins(lb, o2.call.args[0])):
+                        via_entry = True
+        ctx.ob("C06.I5.parent-layer-goes-below-existing-entry", tag + "load_blocks", ok and via_entry,
+               "the parent's block is not appended to `state.blocks.entry(name).or_default()`: an existing (more "
+               "derived) definition would be replaced or shadowed", lb.where(c.bb))
+    nexts = [c for c in lb.calls() if c.name.endswith("Iterator::next") or c.name.endswith("::next")]
+    reg_ok = False
+    for c in nexts:
+        sp = errflow.result_split(lb, c.dest["l"])
+        for (sb, none_t, some_t, other, adt) in (sp.switches if sp else []):
+            if some_t and all(cfg.paths_must_pass(lb, st_, [a.bb for a in apps], [c.bb]) for st_ in some_t):
+                reg_ok = True
+    ctx.ob("C06.I5.every-parent-block-is-registered", tag + "load_blocks", reg_ok,
+           "an iteration over the parent's blocks can skip append_instructions", lb.loc)
+    # -- mutators of State.blocks
+    STATE = "minijinja::vm::state::State"
+    for f in prog.fns.values():
+        if f.crate != "minijinja":
+            continue
+        for c in f.calls():
+            if not c.args or c.name.split("::")[-1] not in ("insert", "remove", "clear", "retain", "pop_first", "pop_last", "append", "split_off", "extend"):
+                continue
+            if "BTreeMap" not in c.name:
+                continue
+            if any("blocks" in o.proj and o.kind == "arg" and f.locals[o.arg].get("adt") == STATE for o in flow.origins(f, c.args[0])):
+                ok = f.path == WES and c.name.endswith("::retain")
+                ctx.ob("C06.I5.block-table-entries-are-stable", tag + "%s|%s" % (f.path, c.name.split("::")[-1]), ok,
+                       "State.blocks is mutated by %s outside the checkpoint restore" % c.name, f.where(c.bb))
+    # -- super(): no further layer is an error; otherwise the current layer is rendered
+    ps = prog.fn(PS)
+    pushes = ps.calls_to(BS + "::push")
+    ctx.floor("C06.I5 BlockStack::push in perform_super" + tag, len(pushes), 1)
+    for c in pushes:
+        tested = False
+        for sb in sorted(ps.reachable):
+            if ps.term(sb)["k"] != "switch":
+                continue
+            cd = flow.cond_of(ps, sb)
+            if cd.kind == "call" and cd.call is c:
+                tested = True
+                false_edges = cfg.bool_edges(ps, sb, cd.neg)
+                ok = all(err_returned_from(ps, x) for (_, x) in false_edges)
+                ctx.ob("C06.I5.super-without-parent-is-an-error", tag + "perform_super", ok,
+                       "when BlockStack::push() reports that no further layer exists perform_super does not return "
+                       "Err on every path", ps.where(sb))
+        ctx.ob("C06.I5.super-tests-push", tag + "perform_super", tested, "result of push() is not branched on", ps.where(c.bb))
+    for fn_, nm in ((ps, "perform_super"), (prog.fn(CB), "call_block")):
+        ok = False
+        for c in fn_.calls_to(WES):
+            src = flow.origins(fn_, c.args[1])
+            if src and all(o.kind == "call" and o.call.name == BS_INSTR for o in src):
+                ok = True
+                if nm == "perform_super":
+                    ok = all(any(cfg.dominates(fn_, p_.bb, o.call.bb) for p_ in pushes) for o in src)
+        ctx.ob("C06.I5.renders-the-selected-layer", tag + nm, ok,
+               "%s evaluates instructions that do not come from BlockStack::instructions() (after push() for "
+               "super)" % nm, fn_.loc)
+
+
 def run(ctx):
     ctx.explain("C06 (error clauses only): guard/dominance rules on the LoadBlocks handler, load_blocks and "
                 "perform_include: double extends, inheritance cycles and missing templates reach `return Err` on "
                 "every path; the only discarded loader error is TemplateNotFound inside an include choice list; "
-                "output is discarded between LoadBlocks and the swap to the parent's instructions.  Which block "
-                "definition renders for a given chain (most-derived / super order) is value-level and NOT decided.")
+                "output is discarded between LoadBlocks and the swap to the parent's instructions.  I5: the block "
+                "layer discipline (layers appended most-derived first, never reordered; depth moves one layer at a "
+                "time under its bound; the rendered layer is instructions[depth]; super() without a parent is an "
+                "error).  The rendered output of a given chain shape is value-level and NOT decided.")
     ctx.assume("include recursion accounting is decided under C11.R1 (perform_include is a charged re-entry)")
     cfgs = [c for c in ctx.configs() if c != "MIN"]
     for cname in cfgs:
@@ -218,5 +410,6 @@ def run(ctx):
         ctx.ob("C06.I4.not-found-reported-unless-ignored", tag + "perform_include", made and g_ok,
                "Err(TemplateNotFound) must be produced when templates were tried and ignore_missing is false",
                pi.loc)
+        check_block_layers(ctx, prog, tag)
         ctx.count("configs")
     ctx.sample({"anchors": [EI, LB, PI]})
